@@ -327,3 +327,47 @@ pub fn cmd_trace(args: &[String]) {
         writeln!(out, "{}", json!({"ev": "final", "eq": got == expect})).unwrap();
     }
 }
+
+
+/// `inc-params <out.json> <seed>` (C08): the one-shot and the incremental entry point agree on the RESULT CLASS as well -
+/// for every key length and digest length, inside and outside the accepted ranges, both return the same bytes or both
+/// refuse (and neither panics), whatever the chunking.
+pub fn cmd_params(args: &[String]) {
+    let seed: u64 = args[1].parse().unwrap();
+    let mut rng = Rng::new(seed ^ 0xa11);
+    let mut rep = Report::new();
+    let keylens: [i64; 16] = [-1, 0, 1, 8, 15, 16, 17, 32, 63, 64, 65, 128, 255, 256, 272, 320];
+    let outlens: [usize; 12] = [0, 1, 8, 15, 16, 17, 32, 63, 64, 65, 128, 256];
+    let cls = |r: &Result<Result<Vec<u8>, String>, String>| -> String { match r { Ok(Ok(_)) => "Ok".into(), Ok(Err(_)) => "Err".into(), Err(_) => "Panic".into() } };
+    for &kl in keylens.iter() {
+        for &ol in outlens.iter() {
+            let key = if kl < 0 { None } else { Some(rng.bytes(kl as usize)) };
+            let msg = rng.bytes(200);
+            rep.case(&format!("params|{}|{}", kl, ol));
+            let one = catch(|| { let mut o = vec![0u8; ol]; cg::crypto_generichash(&mut o, &msg, key.as_deref()).map(|_| o).map_err(|e| format!("{:?}", e)) });
+            for cuts in [vec![], vec![0usize], vec![64], vec![128], vec![1, 129], vec![200]] {
+                rep.evaluations += 1;
+                let inc = catch(|| -> Result<Vec<u8>, String> {
+                    let mut st = cg::crypto_generichash_init(key.as_deref(), ol).map_err(|e| format!("{:?}", e))?;
+                    let mut prev = 0usize;
+                    for &c in cuts.iter() { cg::crypto_generichash_update(&mut st, &msg[prev..c]); prev = c; }
+                    cg::crypto_generichash_update(&mut st, &msg[prev..]);
+                    let mut o = vec![0u8; ol];
+                    cg::crypto_generichash_final(st, &mut o).map_err(|e| format!("{:?}", e))?;
+                    Ok(o)
+                });
+                let d = json!({"keylen": kl, "outlen": ol, "cuts": cuts, "oneshot": cls(&one), "incremental": cls(&inc)});
+                if cls(&inc) == "Panic" || cls(&one) == "Panic" { rep.fail("generichash: a parameter outside the accepted range panics instead of returning an error", d.clone()); continue; }
+                if cls(&one) != cls(&inc) { rep.fail("generichash: one-shot and incremental disagree on whether the parameters are acceptable", d.clone()); continue; }
+                if let (Ok(Ok(a)), Ok(Ok(b))) = (&one, &inc) { if a != b { rep.fail("generichash: incremental result differs from the one-shot function", d.clone()); } }
+            }
+            // libsodium's verdict on the same parameters (the accepted ranges are libsodium's)
+            let mut so_out = vec![0u8; ol.max(1)];
+            let rc = unsafe { so::crypto_generichash(so_out.as_mut_ptr(), ol, msg.as_ptr(), msg.len() as u64, key.as_ref().map(|k| k.as_ptr()).unwrap_or(std::ptr::null()), key.as_ref().map(|k| k.len()).unwrap_or(0)) };
+            // libsodium accepts keys of 0..=64 bytes and digests of 1..=64 at this level; dryoc documents 16..=64 for both: only
+            // the direction "dryoc accepts what libsodium refuses" is judged
+            if rc != 0 && cls(&one) == "Ok" { rep.fail("generichash: accepts parameters libsodium refuses", json!({"keylen": kl, "outlen": ol})); }
+        }
+    }
+    rep.write(&args[0]);
+}
